@@ -386,7 +386,7 @@ func TestExtensionOrdering(t *testing.T) {
 			batches := rapid.IntRange(1, 3).Draw(t, "telemetry-batches")
 			doneIn := rapid.IntRange(0, batches-1).Draw(t, "runtime-done-batch")
 			for b := 0; b < batches; b++ {
-				recs := rapid.SliceOfN(rapid.SampledFrom([]string{"platform.start", "platform.report", "platform.initStart", "function", "platform.runtimeDoneX", "platform.logsDropped"}), 0, 3).Draw(t, "records")
+				recs := rapid.SliceOfN(rapid.SampledFrom([]string{"platform.start", "platform.report", "platform.initStart", "function", "platform.runtimeDoneX", "platform.logsDropped", "platform.initRuntimeDone", "platform.restoreRuntimeDone", "platform.initReport", "platform.restoreStart", "platform.extension", "platform.telemetrySubscription", "extension", "platform.runtimedone", "Platform.RuntimeDone"}), 0, 3).Draw(t, "records")
 				if b == doneIn {
 					pos := rapid.IntRange(0, len(recs)).Draw(t, "done-pos")
 					recs = append(recs[:pos], append([]string{"platform.runtimeDone"}, recs[pos:]...)...)
